@@ -9,7 +9,13 @@ impl Trace {
     pub fn new() -> Self { Trace { out: None, buf: String::new(), lines: 0, kinds: BTreeMap::new(), scenarios: 0, notes: BTreeMap::new(), written: 0 } }
     /// start a new scenario; everything written so far is flushed to the file, so that a run that does not
     /// terminate still leaves the trace of what it did
-    pub fn scenario(&mut self, name: &str) { self.flush(); let _ = writeln!(self.buf, "@ {}", name); self.scenarios += 1; self.flush(); }
+    pub fn scenario(&mut self, name: &str) {
+        self.flush(); let _ = writeln!(self.buf, "@ {}", name); self.scenarios += 1;
+        // the alloc-less build of the crate: every scenario tells the runner to replay it through Model/QueueNoAlloc.v (kind 3)
+        #[cfg(not(feature = "alloc"))]
+        self.line(3, &[], &[]);
+        self.flush();
+    }
     pub fn flush(&mut self) {
         use std::io::Write as _;
         if let Some(f) = self.out.as_mut() {
